@@ -279,6 +279,34 @@ func (nn *nonNil) pairGuarded(fa *ssa.FieldAddr, b *ssa.BasicBlock) bool {
 	return nn.pairSound(f, ef)
 }
 
+// pairGuardedFactOnly: XErr == nil is known for the object whose field X is
+// accessed through fa (without demanding producer soundness).
+func (nn *nonNil) pairGuardedFactOnly(fa *ssa.FieldAddr, b *ssa.BasicBlock) bool {
+	f := fieldOf(fa)
+	ef := errSibling(f, structOwner(fa))
+	if ef == nil {
+		return false
+	}
+	base := path(fa.X)
+	for _, fact := range factsOf(b.Parent()).At(b) {
+		cmp, ok := fact.Cmp()
+		if !ok || cmp.Op != token.EQL {
+			continue
+		}
+		for _, side := range [][2]ssa.Value{{cmp.X, cmp.Y}, {cmp.Y, cmp.X}} {
+			if !isNilConst(side[1]) {
+				continue
+			}
+			if u, ok := side[0].(*ssa.UnOp); ok && u.Op == token.MUL {
+				if efa, ok := u.X.(*ssa.FieldAddr); ok && fieldOf(efa) == ef && path(efa.X) == base {
+					return true
+				}
+			}
+		}
+	}
+	return false
+}
+
 // pairSound: everywhere X and XErr are stored together, X is non-nil whenever
 // the stored error is nil (the producers are sound value+error functions).
 func (nn *nonNil) pairSound(f, ef *types.Var) bool {
